@@ -211,8 +211,12 @@ def make_case(rng, method, n, order, complex_valued=False):
                     tree = tree2
                 else:
                     stationary = False
+            spec = draw_step_spec(rng, method, n)
+            if stationary and rng.random() < 0.5:
+                # a single difference quotient at a zero of the derivative: nothing but the step size can size the estimate
+                spec = dict(kind='scalar', value=float(10.0 ** rng.uniform(-5, -2.5)))
             return dict(tree=tree, x=xs, shape=shape, method=method, n=n, order=order,
-                        step=draw_step_spec(rng, method, n), cplx=bool(complex_valued), stationary=bool(stationary),
+                        step=spec, cplx=bool(complex_valued), stationary=bool(stationary),
                         int_x=bool(int_x))
     return None
 
